@@ -87,7 +87,7 @@ func (vc *VC) indexAddr(st *State, x *ssa.IndexAddr) {
 		}
 		vc.oblige(st, "bounds", "", and(app("<=", "0", idx.S), app("<", idx.S, base.Sl[2])), x.String())
 		et := bt.Elem()
-		abs := app("+", base.Sl[1], idx.S)
+		abs := vc.ix(base.Sl[1], idx.S)
 		vc.vals[x] = vc.nameVal("v."+x.Name(), vc.elemAddr(et, base.Sl[0], abs))
 	case *types.Pointer:
 		at := bt.Elem().Underlying().(*types.Array)
@@ -212,7 +212,7 @@ func (vc *VC) sliceOp(st *State, x *ssa.Slice) {
 func (vc *VC) zeroElems(st *State, et types.Type, arr Term) {
 	if kindOf(et) == KStruct {
 		// elements are sub-objects; zero every field of every element (quantified)
-		vc.zeroStructElems(st, et, arr)
+		vc.zeroStructElemsDeep(st, et, arr)
 		return
 	}
 	if kindOf(et) == KArray {
